@@ -15,9 +15,9 @@ Definition cw_lexer_regex_src : cw_bytes :=
 Lemma cw_facts :
   cw_opt_is f_cw_ident_regex (fun r => r = cw_regex_src) /\
   cw_opt_is f_cw_lexer_ident_regex (fun r => r = cw_lexer_regex_src) /\
-  f_cw_keyword_test_first = true /\
-  f_cw_emit_string_quotes_escaped = true /\
-  f_cw_number_fixed6 = true /\
+  cw_opt_is f_cw_keyword_test_first (fun b => b = true) /\
+  cw_opt_is f_cw_emit_string_quotes_escaped (fun b => b = true) /\
+  cw_opt_is f_cw_number_fixed6 (fun b => b = true) /\
   (* the writer applies the identifier regex to the WHOLE string (the fix of F-C17-a is in place) *)
   cw_src_mode = CwMatch /\
   (* every keyword of the lexer that the writer does not know is one of `debugger`, `in`: such a bare key
